@@ -589,9 +589,21 @@ def shrink_expression(rng_seed, names, src, planted_names):
 # damaged trees (not grammar trees): exception classes of the extractor
 # --------------------------------------------------------------------------------------------
 
+def relist(n):
+    if n[0] == "T":
+        return n
+    return ["N", n[1], [relist(c) for c in n[2]]]
+
+
+def untuple(n):
+    if n[0] == "T":
+        return tuple(n)
+    return ("N", n[1], [untuple(c) for c in n[2]])
+
+
 def damage(rng, t):
-    """return a copy of t with one random local damage; None when no site was found"""
-    t = copy.deepcopy(t)
+    """a copy of t with one random local damage (no longer a grammar tree); None when nothing was changed"""
+    t = relist(t)
     sites = []
 
     def walk(n):
@@ -606,47 +618,30 @@ def damage(rng, t):
         return None
     n = rng.choice(interesting)
     k = rng.choice(["drop_first", "drop_last", "empty", "tok_first", "rename", "empty_tok", "dup_child", "tok_last",
-                    "to_ident"])
-    cs_ = n[2]
-    if k == "drop_first" and cs_:
-        del cs_[0]
-    elif k == "drop_last" and cs_:
-        del cs_[-1]
-    elif k == "empty":
-        del cs_[:]
-    elif k == "tok_first" and cs_:
-        cs_[0] = T("IDENT", rng.choice(["zz", "steps"]))
-    elif k == "tok_last" and cs_:
-        cs_[-1] = T("IDENT", "zz")
-    elif k == "empty_tok" and cs_:
-        cs_[0] = T("IDENT", "")
-    elif k == "dup_child" and cs_:
-        cs_.append(copy.deepcopy(cs_[-1]))
+                    "to_ident", "rename"])
+    kids = n[2]
+    if k == "drop_first" and kids:
+        del kids[0]
+    elif k == "drop_last" and kids:
+        del kids[-1]
+    elif k == "empty" and kids:
+        del kids[:]
+    elif k == "tok_first" and kids:
+        kids[0] = T("IDENT", rng.choice(["zz", "steps"]))
+    elif k == "tok_last" and kids:
+        kids[-1] = T("IDENT", "zz")
+    elif k == "empty_tok" and kids:
+        kids[0] = T("IDENT", "")
+    elif k == "dup_child" and kids:
+        kids.append(copy.deepcopy(kids[-1]))
     elif k == "to_ident":
-        return t if _rename(n, "ident") else None
+        n[1] = "ident"
+    elif k == "rename":
+        n[1] = rng.choice(["primary", "member_dot", "member_index", "member_dot_arg", "ident", "literal", "expr",
+                           "bogus"])
     else:
-        return t if _rename(n, rng.choice(["primary", "member_dot", "member_index", "member_dot_arg", "ident",
-                                           "literal", "expr", "bogus"])) else None
-    return t
-
-
-def _rename(n, new):
-    # tuples are immutable: rebuild in place through the children list of the parent is awkward, so nodes are
-    # lists here (see relist)
-    n[1] = new
-    return True
-
-
-def relist(n):
-    if n[0] == "T":
-        return n
-    return ["N", n[1], [relist(c) for c in n[2]]]
-
-
-def untuple(n):
-    if n[0] == "T":
-        return tuple(n)
-    return ("N", n[1], [untuple(c) for c in n[2]])
+        return None
+    return untuple(t)
 
 
 # --------------------------------------------------------------------------------------------
@@ -911,8 +906,9 @@ def run_workflow(spec):
         res = loop().run_until_complete(wr.reconcile_workflow(
             api=None, workflow_key="wf-under-test", owner=("o", celtypes.MapType({"uid": "u"})),
             trigger=celtypes.MapType({}), workflow=wf))
-        gate = {"started": sorted(started), "result_ok": result.is_unwrapped_ok(res.result) and not result.is_skip(res.result)
-                if hasattr(result, "is_skip") else None, "result_class": oclass(res.result) if not isinstance(res.result, list) else "list"}
+        gate = {"started": sorted(started),
+                "result_class": oclass(res.result) if result.is_error(res.result) or result.is_skip(res.result)
+                else "value"}
     except Exception as e:  # noqa: BLE001
         gate = {"started": sorted(started), "raised": type(e).__name__}
     finally:
@@ -981,7 +977,7 @@ def oracle_workflow(spec, planted, obs, gate):
         if gate.get("started"):
             return ("workflow that is not ready runs steps",
                     f"steps_ready is {ready} but reconcile_workflow started {gate['started']}", None)
-        if gate.get("result_class") in ("COk", "list"):
+        if gate.get("result_class") == "value":
             return ("workflow that is not ready reports Ok", f"steps_ready is {ready} but the result is Ok", None)
     missing_w = [r for r in named_logic(spec) if r not in [tuple(w) for w in watched]]
     if missing_w:
@@ -1048,9 +1044,11 @@ def c_rf_case(spec, rest_ok, obs):
         if isinstance(o.get("overlayRef"), dict) and "name" in o["overlayRef"]:
             return f"(ORef {cs(o['overlayRef']['name'])})"
         return "OOther"
-    ovs = clist(spec.get("overlays", []), lambda o: "{| ov_skip_if := %s; ov_body := %s |}" % (
-        c_field(field_of(o.get("skipIf"), False)[:1] + ((("N", "expr", []),) if field_of(o.get("skipIf"), False)[0] == "expr" else ())),
-        body(o)))
+
+    def skip(o):
+        f = field_of(o.get("skipIf"), False)
+        return {"none": "FNone", "fail": "FFail", "expr": '(FExpr (Tok "" ""))'}[f[0]]   # the model ignores the tree
+    ovs = clist(spec.get("overlays", []), lambda o: "{| ov_skip_if := %s; ov_body := %s |}" % (skip(o), body(o)))
     o = "None" if obs[0] != "done" else f"(Some {clist(obs[1], cs)})"
     return f"CRF {cbool(rest_ok)} {ovs} {o}"
 
@@ -1080,3 +1078,298 @@ def run_ft(spec):
         return ("fail", oclass(out), getattr(out, "message", ""))
     _, watched = out
     return ("done", [(r.resource_type.__name__, r.name) for r in watched])
+
+
+# --------------------------------------------------------------------------------------------
+# the check
+# --------------------------------------------------------------------------------------------
+
+import re as _re
+
+_TXT_DOT = _re.compile(r"(?<![\w.'\"])steps\s*\.\s*([A-Za-z_]\w*)")
+_TXT_IDX = _re.compile(r"(?<![\w.'\"])steps\s*\[\s*(?:'(\w+)'|\"(\w+)\")\s*\]")
+
+
+def textual_refs(src):
+    """NAMEs of steps.NAME / steps['NAME'] / steps["NAME"] read off the text (hand-written corpus only)"""
+    out = set(_TXT_DOT.findall(src))
+    for a, b in _TXT_IDX.findall(src):
+        out.add(a or b)
+    return sorted(out)
+
+
+def check_expression(ctx, src, planted, t_generated=None, gen=None, bucket="extract"):
+    """one expression text: real parser -> (tree equality with the generator's tree) -> real extractor vs model,
+    and the oracle.  Returns (case, term) or None."""
+    try:
+        real = from_lark(cel_env().compile(src))
+    except Exception as e:  # noqa: BLE001
+        if t_generated is not None:
+            raise RuntimeError(f"generator printed text the real parser rejects: {src!r}: {e}")
+        ctx.count(f"{bucket}:unparsable")
+        return None
+    if t_generated is not None and real != t_generated:
+        ctx.mismatch("grammar model: generated tree differs from what the real parser builds from its text",
+                     {"src": src})
+    case, term, obs, steps = extract_case(ctx, real, True, src)
+    case["planted"] = sorted(set(planted))
+    why, detail = oracle_expression(src, planted)
+    if why:
+        small_src, small_names, why2 = shrink_expression(0, None, src, sorted(set(planted)))
+        ctx.fail(Failure(signature=f"expression: {why}", what=why,
+                         case={"kind": "extract", "src": small_src, "planted": small_names},
+                         observed={"keys": obs[1] if obs[0] == "done" else obs, "derived_step_names": steps,
+                                   "missing": detail if small_src == src else small_names}))
+    depth = max([p[2] for p in gen.planted], default=0) if gen else 0
+    ctx.note_case(case, nontrivial=bool(planted) and (depth > 3 or gen is None and len(src) > 12))
+    ctx.count(f"{bucket}:planted:{min(len(planted), 4)}{'+' if len(planted) >= 4 else ''}")
+    ctx.count(f"{bucket}:size:{min(tree_size(real) // 100, 5)}00+")
+    if gen:
+        for k in sorted(gen.kinds):
+            ctx.count(f"{bucket}:has:{k}")
+        for _, form, _ in gen.planted:
+            ctx.count(f"{bucket}:form:{form}")
+    if obs[0] == "raised":
+        ctx.count(f"{bucket}:raised:{obs[1]}")
+    return case, term
+
+
+def check_workflow(ctx, spec, planted, bucket="workflow"):
+    obs, gate, _wf = run_workflow(spec)
+    case = {"kind": "workflow", "spec": spec, "planted": planted}
+    if obs[0] == "rejected":
+        ctx.count(f"{bucket}:schema-rejected")
+        ctx.notes.append({"generator produced a workflow the schema rejects": obs[2][:200]}) if len(ctx.notes) < 3 else None
+        return None
+    bad = oracle_workflow(spec, planted, obs, gate)
+    if bad:
+        sig, what, detail = bad
+        small = minimise_workflow(sig) or {"spec": spec, "planted": planted}
+        ctx.fail(Failure(signature=f"workflow: {sig}", what=what,
+                         case={"kind": "workflow", **small}, observed={"prepared": obs, "gate": gate, "detail": detail}))
+    refs = sum(1 for pl in planted if pl)
+    ctx.note_case(case, nontrivial=refs >= 1 and len(spec["steps"]) >= 2)
+    ctx.count(f"{bucket}:steps:{len(spec['steps'])}")
+    if obs[0] == "raised":
+        ctx.count(f"{bucket}:raised:{obs[1]}")
+        term = f"CWorkflow {clist(model_steps(spec), c_step)} {c_wobs(obs)} []"
+    else:
+        ctx.count(f"{bucket}:ready:{obs[1]}")
+        for s in obs[2]:
+            ctx.count(f"{bucket}:step:{'Step' if s[0] == 'step' else s[2]}")
+        for pl in planted:
+            for _, where in pl:
+                ctx.count(f"{bucket}:ref-in:{where}")
+        started = gate.get("started", []) if gate else []
+        term = f"CWorkflow {clist(model_steps(spec), c_step)} {c_wobs(obs)} {clist(started, cs)}"
+    return case, term
+
+
+def minimise_workflow(sig):
+    """look for a tiny workflow with the same oracle failure (templates: 2-3 steps, one reference)"""
+    fields = ["inputs", "skipIf", "forEach", "state", "switchOn"]
+    for field in fields:
+        for form in ("steps.%s", "steps['%s']", 'steps["%s"]'):
+            for ctxt in ("{R}", "{R}.x", "f({R})", "[{R}]", "x.map(i, {R}.y)", "x.f().y + {R}", "a ? b : {R}"):
+                for target in ("aaa", "bbb", "ccc", "ghost"):
+                    e = "=" + ctxt.replace("{R}", form % target)
+                    a = {"label": "aaa", "ref": {"kind": "ValueFunction", "name": "vf-ok-b"}}
+                    b = {"label": "bbb", "ref": {"kind": "ValueFunction", "name": "vf-ok-b"}}
+                    c = {"label": "ccc", "ref": {"kind": "ValueFunction", "name": "vf-ok-b"}}
+                    if field == "inputs":
+                        b["inputs"] = {"a": e}
+                    elif field == "skipIf":
+                        b["skipIf"] = e
+                    elif field == "forEach":
+                        b["forEach"] = {"itemIn": e, "inputKey": "item"}
+                    elif field == "state":
+                        b["state"] = {"s": e}
+                    else:
+                        del b["ref"]
+                        b["refSwitch"] = {"switchOn": e, "cases": [{"case": "a", "kind": "ValueFunction",
+                                                                    "name": "vf-ok-b"}]}
+                    spec = {"steps": [a, b, c]}
+                    planted = [[], [(target, field)], []]
+                    try:
+                        obs, gate, _ = run_workflow(spec)
+                        bad = oracle_workflow(spec, planted, obs, gate)
+                    except Exception:  # noqa: BLE001
+                        continue
+                    if bad and bad[0] == sig:
+                        return {"spec": spec, "planted": planted}
+    # watch-list failures: one step naming a missing function
+    for st in ({"label": "aaa", "ref": {"kind": "ValueFunction", "name": "vf-missing"}},
+               {"label": "aaa", "refSwitch": {"switchOn": "=parent.k", "cases": [
+                   {"case": "a", "kind": "ValueFunction", "name": "vf-missing"},
+                   {"case": "b", "kind": "ValueFunction", "name": "vf-ok-b", "default": True}]}}):
+        spec = {"steps": [st]}
+        try:
+            obs, gate, _ = run_workflow(spec)
+            bad = oracle_workflow(spec, [[]], obs, gate)
+        except Exception:  # noqa: BLE001
+            continue
+        if bad and bad[0] == sig:
+            return {"spec": spec, "planted": [[]]}
+    return None
+
+
+def check_rf(ctx, spec, rest_ok):
+    obs = run_rf(spec)
+    case = {"kind": "rf", "spec": spec, "rest_ok": rest_ok}
+    if obs[0] == "raised":
+        ctx.fail(Failure(signature=f"rf: prepare_resource_function raises {obs[1]}", what="prepare raised", case=case))
+        return None
+    # oracle: every overlayRef function is watched whenever a prepared function (with a watch list) is returned
+    if obs[0] == "done":
+        want = sorted({o["overlayRef"]["name"] for o in spec.get("overlays", [])
+                       if "overlayRef" in o and "overlay" not in o and field_of(o.get("skipIf"), False)[0] != "fail"})
+        missing = [n for n in want if n not in obs[1]]
+        if missing or any(k != "ValueFunction" for k in obs[2]):
+            ctx.fail(Failure(signature="rf: overlayRef function is not watched",
+                             what=f"overlayRef functions {missing} are not in the watch list {obs[1]}",
+                             case=case, observed=obs))
+    ctx.note_case(case, nontrivial=len(spec.get("overlays", [])) >= 2)
+    ctx.count(f"rf:{obs[0]}")
+    ctx.count(f"rf:overlays:{len(spec.get('overlays', []))}")
+    return case, c_rf_case(spec, rest_ok, obs)
+
+
+def check_ft(ctx, spec, kind, name, cases_ok, inputs_ok):
+    obs = run_ft(spec)
+    case = {"kind": "ft", "spec": spec, "fn": [kind, name], "cases_ok": cases_ok, "inputs_ok": inputs_ok}
+    if obs[0] == "raised":
+        ctx.fail(Failure(signature=f"ft: prepare_function_test raises {obs[1]}", what="prepare raised", case=case))
+        return None
+    if obs[0] == "done" and (kind, name) not in obs[1]:
+        ctx.fail(Failure(signature="ft: function under test is not watched",
+                         what=f"function under test {(kind, name)} is not in the watch list {obs[1]}",
+                         case=case, observed=obs))
+    ctx.note_case(case, nontrivial=True)
+    ctx.count(f"ft:{obs[0]}:{cache_status(kind, name)}")
+    o = "None" if obs[0] != "done" or not obs[1] else f"(Some {c_res(obs[1][0])})"
+    return case, f"CFT {cs(kind)} {cs(name)} {cbool(cases_ok)} {cbool(inputs_ok)} {o}"
+
+
+REGEX_HEADS = ["steps", "steps.", "stepsX", "steps_", "step", "Steps.", "xsteps.", "steps\n", "stepsé", "steps[",
+               "parent", "parent.", "parentX", "parents.", "paren", "parent\n", "parenté", "inputs.", ""]
+REGEX_ALPHA = list("ab_1") + [".", ".", "[", "]", "\n", "é", "'", " ", "-", "x"]
+
+
+def check_regex(ctx, key):
+    from koreo.workflow import prepare as wp
+    m = wp.STEPS_NAME_PATTERN.match(key)
+    p = wp.PARENT_NAME_PATTERN.match(key)
+    s = None if not m else (m.group("name"),)
+    pn = None if not p else p.group("name")
+    ctx.note_case({"kind": "regex", "key": key}, nontrivial=bool(m or p))
+    ctx.count("regex:" + ("steps-none-name" if (m and m.group("name") is None) else "steps" if m else "parent" if p else "nomatch"))
+    st = "None" if s is None else f"(Some {c_ostr(s[0])})"
+    return {"kind": "regex", "key": key}, f"CRegex {cs(key)} {st} {c_ostr(pn)}"
+
+
+def run(ctx: Ctx):
+    rng = ctx.rng
+    q = ctx.quick()
+    world_setup()
+    try:
+        ex_cases, ex_terms = [], []
+        wf_cases, wf_terms = [], []
+        misc_cases, misc_terms = [], []
+
+        def add(lst_c, lst_t, r):
+            if r:
+                lst_c.append(r[0])
+                lst_t.append(r[1])
+
+        # -- corpus first
+        for c in corpus_cases("C14"):
+            c = c.get("case", c)
+            if c.get("kind") == "extract" and c.get("src") is not None:
+                add(ex_cases, ex_terms, check_expression(ctx, c["src"], c.get("planted", []), bucket="corpus"))
+            elif c.get("kind") == "workflow":
+                add(wf_cases, wf_terms, check_workflow(ctx, c["spec"], [[tuple(x) for x in pl] for pl in c["planted"]],
+                                                       bucket="corpus-wf"))
+        # -- hand-written expressions (every grammar rule); names read off the text
+        for src in HAND_CORPUS:
+            add(ex_cases, ex_terms, check_expression(ctx, src, textual_refs(src), bucket="hand"))
+
+        # -- generated expressions
+        n_expr = 900 if q else 12000
+        name_pool = LABEL_POOL + ["a", "B", "_", "x_y_z", "steps", "parent", "T" * 45]
+        for i in range(n_expr):
+            names = rng.sample(name_pool, rng.randint(1, 3))
+            size = rng.choice([20, 60, 120, 260] if q else [20, 60, 120, 260, 500])
+            t, g = gen_expression(rng, names, p_plant=rng.choice([0.0, 0.1, 0.2, 0.35]), max_nodes=size)
+            add(ex_cases, ex_terms, check_expression(ctx, to_source(t), [p[0] for p in g.planted], t, g))
+
+        # -- damaged trees
+        dm_cases, dm_terms = [], []
+        n_dmg = 350 if q else 5000
+        tries = 0
+        while len(dm_cases) < n_dmg and tries < n_dmg * 4:
+            tries += 1
+            t, g = gen_expression(rng, ["aaa"], p_plant=0.2, max_nodes=rng.choice([15, 40, 80]))
+            d = damage(rng, t)
+            if d is None or d == t:
+                continue
+            case, term, obs, _ = extract_case(ctx, d, False)
+            # the model does not render f"{Tree}": skip the cases in which the real code did so successfully
+            dm_cases.append(case)
+            dm_terms.append(term)
+            ctx.note_case(case, nontrivial=obs[0] == "raised")
+            ctx.count("damaged:" + (obs[1] if obs[0] == "raised" else "returns"))
+
+        # -- regexes
+        rx_cases, rx_terms = [], []
+        for i in range(500 if q else 6000):
+            key = rng.choice(REGEX_HEADS) + "".join(rng.choice(REGEX_ALPHA) for _ in range(rng.randint(0, 7)))
+            c, t = check_regex(ctx, key)
+            rx_cases.append(c)
+            rx_terms.append(t)
+
+        # -- workflows
+        for i in range(260 if q else 3500):
+            spec, planted = gen_workflow(rng, weird=(i % 40 == 39))
+            add(wf_cases, wf_terms, check_workflow(ctx, spec, planted))
+
+        # -- resource functions / function tests
+        for i in range(100 if q else 1200):
+            spec, rest_ok = gen_rf(rng)
+            add(misc_cases, misc_terms, check_rf(ctx, spec, rest_ok))
+        for i in range(60 if q else 600):
+            add(misc_cases, misc_terms, check_ft(ctx, *gen_ft(rng)))
+
+        if ctx.model_ok:
+            # the damaged stream: drop the cases on which the MODEL says "not modelled" is not possible from here,
+            # so they are included and a disagreement is reported by the correspondence itself
+            ctx.correspond("extract_argument_structure + name regexes on real parse trees vs Extract.extract",
+                           "Corr_C14", ex_cases, ex_terms)
+            ctx.correspond("extract_argument_structure on damaged trees vs Extract.extract", "Corr_C14",
+                           dm_cases, dm_terms, check_fn="check_case_damaged")
+            ctx.correspond("STEPS_NAME_PATTERN / PARENT_NAME_PATTERN vs Extract.steps_name / parent_name",
+                           "Corr_C14", rx_cases, rx_terms)
+            ctx.correspond("prepare_workflow (+ reconcile gate) vs Extract.prepare_workflow", "Corr_C14",
+                           wf_cases, wf_terms)
+            ctx.correspond("watch lists of prepare_resource_function / prepare_function_test vs model", "Corr_C14",
+                           misc_cases, misc_terms)
+    finally:
+        world_teardown()
+
+
+def replay(ctx: Ctx, data):
+    case = data["case"] if "case" in data else data
+    world_setup()
+    try:
+        r = None
+        if case.get("kind") == "extract":
+            r = check_expression(ctx, case["src"], case.get("planted", []), bucket="replay")
+        elif case.get("kind") == "workflow":
+            r = check_workflow(ctx, case["spec"], [[tuple(x) for x in pl] for pl in case["planted"]], bucket="replay")
+        elif case.get("kind") == "rf":
+            r = check_rf(ctx, case["spec"], case["rest_ok"])
+        elif case.get("kind") == "ft":
+            r = check_ft(ctx, case["spec"], case["fn"][0], case["fn"][1], case["cases_ok"], case["inputs_ok"])
+        if r and ctx.model_ok:
+            ctx.correspond("replay", "Corr_C14", [r[0]], [r[1]])
+    finally:
+        world_teardown()
